@@ -128,7 +128,7 @@ static void run_plan(Scenario &S, va::Alloc &al, const std::vector<Step> &ref, c
 	if (!al.balanced()) harness_bug("allocator not balanced before a fault run");
 	al.plan_none(); al.reset_counters(); al.fail_at = fail_at; al.fail_from = from; if (mask) al.fail_mask = *mask;
 	Run r(al, &ref, S.label.c_str()); r.plan = plan;
-	S.run(r);
+	S.run(r); ++g_stats.evals;          // one evaluation = one execution of the scenario under one failure plan (plus one per case for the fault-free run)
 	const uint64_t delivered = al.failed;
 	al.plan_none();
 	if (r.rec.size() != ref.size()) violation("C10:harness-transcript", "%s [%s]: %zu results recorded, fault-free run has %zu", S.label.c_str(), plan.c_str(), r.rec.size(), ref.size());
